@@ -133,8 +133,9 @@ class MappingCase(Case):
 
     family = "sort/mapping"
 
-    def __init__(self, cid, *, R, K, C, filters, obj_filt, con_filt):
+    def __init__(self, cid, *, R, K, C, filters, obj_filt, con_filt, nan_in="objective"):
         self.id = cid
+        self.nan_in = nan_in   # which column carries the NaN of a failed realization
         self.R, self.K, self.C, self.filters, self.obj_filt, self.con_filt = R, K, C, filters, obj_filt, con_filt
         d = {
             "variables": {"initial_values": [0.0]},
@@ -162,7 +163,10 @@ class MappingCase(Case):
         c = env.reals("c", (R, self.C), lo=-BOUND, hi=BOUND) if self.C else None
         # one NaN entry fails the realization: put the NaN in a column chosen per realization
         for i in range(R):
-            f[i, 0] = SR(f[i, 0].v, failed[i].t)
+            if self.nan_in == "constraint":
+                c[i, self.C - 1] = SR(c[i, self.C - 1].v, failed[i].t)
+            else:
+                f[i, 0] = SR(f[i, 0].v, failed[i].t)
         return {"w": w, "ow": ow, "failed": failed, "f": f, "c": c}
 
     def run(self, env, inp):
@@ -249,6 +253,7 @@ def build_cases(tier):
     sc = lambda a, b, s=0: {"method": "sort-constraint", "options": {"sort": s, "first": a, "last": b}}  # noqa: E731
     add(MappingCase, R=3, K=2, C=1, filters=(so(0, 1), sc(1, 2)), obj_filt=(0, 1), con_filt=(1,))
     add(MappingCase, R=3, K=3, C=1, filters=(so(0, 0, (1,)), so(1, 2, (0, 2))), obj_filt=(1, -1, 0), con_filt=(0,))
+    add(MappingCase, R=3, K=1, C=2, filters=(so(0, 1), sc(1, 2, 0)), obj_filt=(0,), con_filt=(1, -1), nan_in="constraint")   # a realization failing in its last constraint only
     add(MappingCase, R=3, K=2, C=0, filters=(so(0, 0), so(1, 2)), obj_filt=(1, -1), con_filt=())   # a configured filter nothing refers to comes first
     add(MappingCase, R=3, K=1, C=2, filters=(sc(0, 1, 0), sc(0, 1, 1)), obj_filt=(-1,), con_filt=(0, 1))   # two constraint filters see the same arrays
     add(MappingCase, R=3, K=2, C=1, filters=(so(0, 1), so(2, 2), sc(0, 0)), obj_filt=(2, 2), con_filt=(0,))
